@@ -7,7 +7,12 @@ RULE = ("every rule sequence of Firewall.tla's lattice (all single rules over di
         "host x remote CIDR x CA name/sha x (environment, local CIDR); every 'sibling pair' = a rule followed by the same rule with "
         "one field changed; every 'bucket pair' = two rules in one direction/proto/port/CA bucket with overlapping remote "
         "selectors (nested remote CIDRs, host and groups of one peer, nested group lists) and different local CIDRs (nested, "
-        "disjoint, default, any); seeded samples of sequences of 2 and 3 rules in both directions) is "
+        "disjoint, default, any); seeded samples of sequences of 2 and 3 rules in both directions; the port dimension: every "
+        "rule direction x protocol x port specification placed systematically in the port space (any, fragment, single middle / "
+        "lowest / highest port, narrow range, range from 1, range up to 65535, exactly 1-65535, its neighbours 2-65535 and 1-65534, "
+        "ranges written from 0) and pairs of such rules for two different hosts in one port table, evaluated on packets whose "
+        "looked-at port lies inside, on both edges and just outside every specification, port 0, and packets without ports "
+        "(fragments), for tcp / udp / icmp / another protocol) is "
         "one TLC state whose expected verdict sets come from Allowed(rules, pkt, peer, dir); each is loaded into a real Firewall "
         "with AddRule and every (packet shape, peer) pair is put through the real Drop in both directions on a fresh conntrack, "
         "followed by the reverse direction for the 'then tracked' effect; distinct = distinct rule sequences")
@@ -17,6 +22,10 @@ ASSUMPTIONS = [
     "decided by the statement or by examples/config.yml (the code says no): both verdicts are accepted there",
     "the port a rule looks at is the node-side port for inbound and the peer-side port for outbound packets (firewall/packet.go)",
     "second and further fragments carry no port: they match only port 'fragment' and 'any' rules (examples/config.yml)",
+    "a port range matches the ports inside it, bounds included, and nothing else: port 0 is a port number outside every range "
+    "that starts at 1 (only 'any' covers it), and 1-65535 is not 'any'",
+    "AddRule(.., 0, n, ..) with n > 0 (the configuration path never produces it: '0-n' is read as any) may mean any or the ports "
+    "0..n: packets only one of the two readings admits are not decided",
     "ca_name and ca_sha together are an OR, as the documented evaluation order says",
     "a missing local_cidr means the node's own VPN networks unless default_local_cidr_any (examples/config.yml); the code's "
     "shortcut 'no unsafe networks in my certificate => any' is equivalent because Drop only admits node-side addresses that "
@@ -101,5 +110,6 @@ META = {
             'emits the expected verdict sets; the harness loads each rule sequence into a real Firewall and compares the verdict '
             'of Drop for ~50 (packet, peer) pairs in both directions plus the conntrack effect.',
     'design_ref': '3.7 C16',
-    'note': 'Finite lattice of field values; ports beyond the lattice (ranges, boundaries) are varied by C22 through the config path.',
+    'note': 'Finite lattice of field values. The rule tables of the model keep one entry per port that a packet of the universe can '
+            'present (a 1-65535 rule has 65535 entries in the code); port texts are varied by C22 through the config path.',
 }
